@@ -68,6 +68,7 @@ def handle : List String → List String → Option String
     let l ← parseOpLine "255.255.255.255:60000" r
     match impl with
     | ["panic"] => some "bad C04 the call panicked"
+    | ["mutated-argument"] => some "bad C17 the operation modified a map argument it was given"
     | _ =>
       let (calls, res, extras) ← parseOutcome impl
       let bad := judge l calls res extras
